@@ -34,6 +34,7 @@ type TB struct {
 	strLitList  []*Term
 	axioms      []*Term // background axioms asserted before everything else
 	onFresh     func(name string)
+	constSort   map[string]string
 }
 
 type structSort struct {
@@ -110,6 +111,12 @@ func (b *TB) Const(name, srt string) *Term {
 	if !b.declSet[name] {
 		b.declSet[name] = true
 		b.decls = append(b.decls, fmt.Sprintf("(declare-fun %s () %s)", name, srt))
+		if b.constSort == nil {
+			b.constSort = map[string]string{}
+		}
+		b.constSort[name] = srt
+	} else if s0, ok := b.constSort[name]; ok && s0 != srt {
+		panic(fmt.Sprintf("engine: constant %s declared with sorts %s and %s", name, s0, srt))
 	}
 	return b.mk(name, srt)
 }
